@@ -4,7 +4,7 @@
   Every statement is an unconditional equality of functions; a source change that alters what one of these
   functions computes makes its proof fail.
 -/
-import Stevia.Generated.Avl32
+import Stevia.Generated.Avl32Bal
 import Stevia.Proofs.GenLemmas
 
 namespace Stevia
